@@ -327,6 +327,12 @@ def _bsm_wrapper(net, branch_pit, node_pit, heat_mode):
     return _ORIG["build_system_matrix"](net, branch_pit, node_pit, heat_mode)
 
 
+def _init_options_wrapper(net, **kwargs):
+    """start of a pipeflow call: the update unknowns are numbered per call"""
+    CTX.sys_base = len(CTX.systems)
+    return _ORIG["init_options"](net, **kwargs)
+
+
 def _fin_stub(net, niter, residual_norm, nonlinear_method, errors, tols, tol_res, vals_old,
               solver_vars, pit_names, filtered):
     # verdict assumed here (the verdict logic itself is C05's subject); histories can force a failure
@@ -361,7 +367,9 @@ def install(numba_pyfunc=False, force_verdict=True, symbolic_constants=True):
     pf.finalize_iteration = _fin_stub if force_verdict else _ORIG["finalize_iteration"]
     if "build_system_matrix" not in _ORIG:
         _ORIG["build_system_matrix"] = pf.build_system_matrix
+        _ORIG["init_options"] = pf.init_options
     pf.build_system_matrix = _bsm_wrapper
+    pf.init_options = _init_options_wrapper
     CTX.fixed = set()
     CTX.ident = {}
     CTX.sym_tag = ""
@@ -380,6 +388,7 @@ def uninstall():
         pf.finalize_iteration = _ORIG["finalize_iteration"]
     if "build_system_matrix" in _ORIG:
         pf.build_system_matrix = _ORIG["build_system_matrix"]
+        pf.init_options = _ORIG["init_options"]
     stubs.uninstall()
 
 
